@@ -458,6 +458,33 @@ def seen_flag_reset(ctx, cm):
     if len(uses) != 1:
         return False, "inner closure not passed to one consumer"
     ob, ubb, ut, ai = uses[0]
+    # who writes the flags: only `fill(false)` and the test-and-set of the inner element's own flag
+    for body in build_reach(ctx):
+        idx_stores = {st["index_bb"]: st for st in stores_through_index(body)}
+        for bb, t in body.calls():
+            p = callee_path(t) or ""
+            for ai_, a in enumerate(t["args"]):
+                ty = a.get("pl", {}).get("ty", "") if isinstance(a, dict) else ""
+                if not ty.startswith("&mut"):
+                    continue
+                srcs = fl.sources_operand(body, a)
+                if not any(s_.kind == "alloc" and (s_[1], s_[2]) in flags for s_ in srcs):
+                    continue
+                if p == "std::slice::<impl [T]>::fill":
+                    if not is_const(strip_refs(expr_operand(body, t["args"][1])), 0):
+                        return False, "the flag vector is filled with `true` in %s: every later candidate of the current element is skipped" % short(body.id)
+                elif p == "std::ops::IndexMut::index_mut":
+                    st = idx_stores.get(bb)
+                    if st is None:
+                        return False, "flag element borrowed mutably without a recognised store in %s" % short(body.id)
+                    ie = node_index_arg(strip_refs(expr_operand(body, st["idx"])))
+                    if st["value"].kind == "const" and not is_const(st["value"], 0):
+                        if body.id != b.id or ie is None or strip_refs(ie) != cm["b"]:
+                            return False, "a seen flag other than the inner element's own is set in %s" % short(body.id)
+                elif p in ("std::ops::DerefMut::deref_mut", "std::vec::Vec::<T, A>::as_mut_slice", "std::convert::AsMut::as_mut"):
+                    continue
+                else:
+                    return False, "the flag vector is mutated by %s in %s" % (p, short(body.id))
     # allocated inside the outer closure?
     if all(k[0] == ob.id for k in flags):
         return True, ""
@@ -731,6 +758,89 @@ def B3(ctx, rule="B3"):
               "the Data-edge insertion is not guarded by has_path_connecting: update_edge would overwrite a user edge's kind; redundant edges are added")
 
 
+PANICKY_BINOPS = ("SubWithOverflow", "MulWithOverflow", "Div", "Rem", "ShlWithOverflow", "ShrWithOverflow", "Shl", "Shr", "Sub", "Mul",
+                  "SubUnchecked", "MulUnchecked", "ShlUnchecked", "ShrUnchecked")
+PANIC_CALLS = ("std::rt::begin_panic", "std::panicking::panic", "std::panicking::panic_fmt", "std::panicking::panic_explicit",
+               "std::panicking::unreachable_display", "std::panicking::panic_display", "std::panicking::assert_failed",
+               "std::rt::panic_fmt", "std::panicking::panic_nounwind", "std::option::unwrap_failed", "std::result::unwrap_failed",
+               "std::panicking::panic_const")
+UNWRAPPERS = ("std::option::Option::<T>::unwrap", "std::option::Option::<T>::expect", "std::result::Result::<T, E>::unwrap",
+              "std::result::Result::<T, E>::expect", "std::result::Result::<T, E>::unwrap_err", "std::result::Result::<T, E>::expect_err")
+
+
+def P1(ctx, rule="P1"):
+    """Panic-site inventory of build(): in the bodies reachable from build()
+    there is no arithmetic that can trap (subtraction, multiplication, division,
+    shift: only `+ 1` style additions bounded by the node/edge count), no
+    explicit panic/assert, no unwrap/expect other than on the Result of an edge
+    insertion (whose unreachability is the acyclicity argument), and slices are
+    taken only as list[i..] with i an enumeration index of that list."""
+    m, fl = ctx.model, ctx.model.flow
+    b0 = build_body(ctx)
+    if b0 is None:
+        ctx.unverifiable(rule, "build", "-", "build() not found")
+        return
+    n_arith = n_unwrap = n_slice = 0
+    bodies = build_reach(ctx)
+    for b in bodies:
+        for bb, si, s_ in b.stmts():
+            if s_["k"] != "assign" or s_["rv"]["k"] != "binop":
+                continue
+            op = s_["rv"]["op"]
+            if op in ("AddWithOverflow", "Add", "AddUnchecked"):
+                n_arith += 1
+                continue
+            if op not in PANICKY_BINOPS:
+                continue
+            ty = s_["rv"]["a"].get("pl", {}).get("ty") or s_["rv"]["a"].get("ty") or ""
+            n_arith += 1
+            # guarded by a comparison of the left operand (x > 0, x != 0, x >= y)?
+            a = strip_refs(expr_operand(b, s_["rv"]["a"]))
+            guarded = False
+            for sb, de, vals in cond_guards(b, bb):
+                e = strip_refs(de)
+                if e.kind == "binop" and e[1] in ("Gt", "Ge", "Ne", "Lt", "Le", "Eq") and (strip_refs(e[2]) == a or strip_refs(e[3]) == a):
+                    guarded = True
+            ctx.check(guarded, rule, "arith|%s|%s" % (short(b.id), op), m.where(b, bb, si),
+                      "`%s` in build() is guarded by a comparison of its left operand" % op,
+                      "build() evaluates `%s` on `%s` with no guard on that operand: it traps (debug) or wraps (release) for some graph, e.g. the empty one" % (
+                          op, fmt_expr(a, b)))
+        for bb, t in b.calls():
+            p = callee_path(t) or ""
+            where = m.where(b, bb)
+            if p in PANIC_CALLS or p.startswith("std::panicking::") or p.startswith("core::panicking::"):
+                ctx.bad(rule, "panic|%s" % short(b.id), where, "build() can reach an explicit panic/assert (%s)" % p)
+            elif p in UNWRAPPERS:
+                n_unwrap += 1
+                ty = t["args"][0].get("pl", {}).get("ty", "") if isinstance(t["args"][0], dict) else ""
+                ctx.check("daggy::WouldCycle<" in ty, rule, "unwrap|%s|%s" % (short(b.id), p.split("::")[-1]), where,
+                          "the only unwrap/expect sites in build() are on the Result of an edge insertion (WouldCycle; unreachable by the rank argument)",
+                          "build() unwraps a `%s`: a new panic path" % ty)
+            elif p in ("std::ops::Index::index", "std::ops::IndexMut::index_mut") and len(t["args"]) == 2:
+                ity = t["args"][1].get("pl", {}).get("ty", "") if isinstance(t["args"][1], dict) else (t["args"][1].get("ty", "") if isinstance(t["args"][1], dict) else "")
+                if "std::ops::Range" not in ity:
+                    continue
+                n_slice += 1
+                rng = strip_refs(expr_operand(b, t["args"][1]))
+                ok = False
+                why = "range `%s`" % fmt_expr(rng, b)
+                if ity.startswith("std::ops::RangeFull"):
+                    ok = True
+                elif ity.startswith("std::ops::RangeFrom<") and rng.kind == "agg":
+                    srcs = sources_of_expr(ctx, b, strip_refs(rng[4][0]))
+                    ok = bool(srcs) and all(s2.kind == "alloc" and s2[4] == "std::iter::Iterator::enumerate" and "$item" in s2[3] for s2 in srcs)
+                    if not ok:
+                        ok = bool(srcs) and all(s2.kind == "const" and str(s2[1]) == "0" for s2 in srcs)
+                    why = "start of `%s` comes from %s" % (fmt_expr(rng, b), [fmt_src(x) for x in srcs][:3])
+                ctx.check(ok, rule, "slice|%s" % short(b.id), where,
+                          "slice taken as list[i..] with i an index produced by enumerate(): always within bounds",
+                          "build() slices with a computed bound (%s): out of range for some graph" % why)
+    ctx.ok(rule, "inventory", m.where(b0), "%d bodies reachable from build(): %d arithmetic ops, %d unwrap/expect sites, %d slice sites inspected" % (
+        len(bodies), n_arith, n_unwrap, n_slice))
+    if n_unwrap < 2 or n_arith < 1:
+        ctx.unverifiable(rule, "floor", m.where(b0), "expected >= 2 expect sites and >= 1 addition in build()'s reach, found %d / %d" % (n_unwrap, n_arith))
+
+
 # ---------------------------------------------------------------------------
 # C12
 
@@ -901,6 +1011,13 @@ def D2(ctx, rule="D2"):
             why = "index from enumerate: %s, `from` is outer element: %s, same list: %s, `to` is inner element: %s" % (idx_ok, a_ok, same_list, b_ok)
         else:
             why = "outer iteration has no enumerate: chain %s" % names
+    if len(outer_uses) == 1 and "std::iter::Iterator::enumerate" in names:
+        n_rev = names.count("std::iter::Iterator::rev")
+        ctx.check(n_rev % 2 == 1, rule, "outer-descending", m.where(pb, ubb2),
+                  "the outer iteration walks the ascending-sorted list from its end (highest rank first): when an element is examined, "
+                  "every Data edge among later elements already exists, so has_path_connecting suppresses every implied ordering",
+                  "the outer iteration walks the sorted list from the lowest rank upward: the path test runs before the later chain edges exist, "
+                  "so Data edges that repeat an implied ordering are added")
     ctx.check(ok_outer, rule, "direction", where,
               "the Data edge goes from the outer (earlier-sorted) element to an element at a later position of the same sorted list",
               "edge direction / list identity not established: %s" % why)
@@ -999,7 +1116,77 @@ def D4(ctx, rule="D4"):
                 if "std::iter::Iterator::zip" in names:
                     zips += 1
                     ctx.check(not sel, rule, "zip-unfiltered|%d" % zips, m.where(b, bb), "pairwise comparison over the full zipped sequences", "comparison narrowed by %s" % sel)
+                    okc, whyc = conjunctive_consumer(ctx, b, bb, t)
+                    ctx.check(okc, rule, "conjunctive|%d" % zips, m.where(b, bb),
+                              "the pairwise comparison is a conjunction: one unequal pair makes the result false (%s)" % whyc,
+                              "the pairwise comparison is not a conjunction over all pairs: %s" % whyc)
     ctx.check(zips >= 2, rule, "zips", where, "edges and functions are compared pairwise (2 zipped sequences)", "expected 2 zipped comparisons, found %d" % zips)
+
+
+def conjunctive_consumer(ctx, b, bb, t):
+    """The consumer of a zipped comparison lets a single unequal pair decide:
+    all / Iterator::eq by definition; try_fold when the closure short-circuits
+    (Break/Err/None) on the unequal branch or its result depends on the
+    accumulator; fold only when the result depends on the accumulator."""
+    fl = ctx.model.flow
+    p = callee_path(t)
+    if p in ("std::iter::Iterator::all", "std::iter::Iterator::eq"):
+        return True, p.split("::")[-1]
+    fcl = closure_of_arg(ctx, b, expr_operand(b, t["args"][2])) if len(t["args"]) > 2 else None
+    if fcl is None:
+        return False, "fold closure not found"
+    # accumulator = first closure parameter (_2)
+    acc_used = False
+    for s_ in fl.sources_local(fcl, 0, (), "taint"):
+        if s_.kind in ("param", "closure_param") and s_[1] == fcl.id and s_[2] == 2:
+            acc_used = True
+    if not acc_used:
+        # control dependence on the accumulator
+        for sb, blk in enumerate(fcl.blocks):
+            if blk["term"]["k"] == "switch":
+                for s_ in sources_of_expr(ctx, fcl, strip_refs(switch_expr_(fcl, sb)), mode="taint"):
+                    if s_.kind in ("param", "closure_param") and s_[1] == fcl.id and s_[2] == 2:
+                        acc_used = True
+    if acc_used:
+        return True, "%s whose result depends on the accumulator" % p.split("::")[-1]
+    if p == "std::iter::Iterator::try_fold":
+        cmps = []
+        for sb, blk in enumerate(fcl.blocks):
+            if blk["term"]["k"] == "switch":
+                e = strip_refs(switch_expr_(fcl, sb))
+                if e.kind == "call" and e[1] in ("std::cmp::PartialEq::eq", "std::cmp::PartialEq::ne"):
+                    cmps.append((sb, e[1]))
+        n_break = 0
+        conts_ok = bool(cmps)
+        for kind, dbb, si, x in get_defs(fcl).of(0):
+            rv = x["rv"] if kind == "stmt" else None
+            short_c = rv is not None and rv["k"] == "agg" and (
+                (rv.get("def") == "std::ops::ControlFlow" and rv.get("variant") == "Break") or
+                (rv.get("def") == "std::result::Result" and rv.get("variant") == "Err") or
+                (rv.get("def") == "std::option::Option" and rv.get("variant") == "None"))
+            if short_c:
+                n_break += 1
+                continue
+            # a continuing result requires every comparison to have been true
+            gs = {sb: vals for sb, vals in guards_of_(fcl, dbb)}
+            for sb, fn in cmps:
+                vals = gs.get(sb)
+                if vals is None or (fn.endswith("::eq") and "0" in vals) or (fn.endswith("::ne") and vals != frozenset(["0"])):
+                    conts_ok = False
+        if n_break and conts_ok:
+            return True, "try_fold that breaks unless all %d comparison(s) of the pair hold" % len(cmps)
+        return False, "try_fold closure neither uses its accumulator nor short-circuits on an unequal pair"
+    return False, "`%s` closure ignores its accumulator: only the last pair decides" % p.split("::")[-1]
+
+
+def guards_of_(body, bb):
+    from analysis import guards_of
+    return guards_of(body, bb)
+
+
+def switch_expr_(body, sb):
+    from analysis import switch_expr
+    return switch_expr(body, sb)
 
 
 # ---------------------------------------------------------------------------
